@@ -44,6 +44,31 @@
 //! only if an OS repeat event was handled since the last executed tick, so the three repaired
 //! stale-key sites stay under their live signature.
 //!
+//! Time-driven state that is alive while nothing else is pending (two scripted families, judged by
+//! the same L/R relation):
+//! * `oneshot-pause`: `one-shot-pause-processing N` (N from {5,20,50,200,300,1000}) started while NO
+//!   one-shot is active - on its own key, inside `multi`, through a virtual key tapped on press / on
+//!   release, and through the release of a `layer-while-held` key carrying `(on-release tap-vkey ..)`
+//!   as in the documented set-up - plus one-shot keys of all five variants with timeouts on both sides
+//!   of N. Histories are 1..3 rounds of: opening (pause key tapped; layer key tapped alone; pause key
+//!   then a plain key; layer held, one-shot tapped, layer released = the documented use; nothing), idle
+//!   gap from {0,1,7,N/2,N-1,N,N+1,2N,2N+40,1000,3000} (one in twelve 10 001 / 70 000), one-shot key
+//!   tapped, a plain key tapped 1..20 ms later and again {2,5,N/2,N-1,N,N+1} ms later, pause of
+//!   {1,30,T+5,T+N+5,1500}.
+//! * `key-timing-lt`: switch `key-timing` where the LARGEST threshold written in the configuration is
+//!   a less-than test (no greater-than at all; a smaller greater-than), with controls (a larger
+//!   greater-than; the same threshold in both). Threshold from {3..200,50,200,255,256,300,1000,2303,
+//!   2304,5000}; the test appears plain, spelled `less-than`, inside `and` / `or` / `not`, on the
+//!   second most recent key, directly in the layer or behind an alias, and a second switch key has a
+//!   fallthrough case. Histories are 1..3 rounds of: 1..3 plain keys typed, idle gap from {0,1,5,T/2,
+//!   T-2..T+2 (for T as written and as stored after the 8 ms / 128 ms compression),2T,2T+50,3T+7,
+//!   T+1000,3000} (one in twelve 10 001 / 70 000), a switch key tapped (a third of the time tapped
+//!   again at once), pause.
+//! A difference that disappears when the sleeping run is kept from blocking while that very state is
+//! pending (for the pause: only if its countdown was seen moving during the ticks of a blocked gap) gets the signature `blocked-while:oneshot-pause-countdown-set` /
+//! `blocked-while:typed-key-younger-than-a-key-timing-threshold` (tried for every configuration, not
+//! only these families); otherwise it keeps its structural `slept-vs-ticked:*` / `gap-output:*` one.
+//!
 //! Part 2: the real `Kanata::start_processing_loop` thread, fed through its real channel with real
 //! sleeps on time-insensitive configurations, must emit the same ordered OS stream as the stepper.
 //!
@@ -91,7 +116,7 @@ const T0: u64 = 1;
 const FEATS: &[&str] = &[
     "key_state", "layer_state", "custom_state", "fakekey_state", "os_key_down", "os_button_down", "oneshot_keys",
     "dynmacro_recording", "dynmacro_saved", "history_younger_than_1s", "vkey_or_fakerow_state", "input_pause_countdown_pending",
-    "os_key_not_backed_by_state",
+    "os_key_not_backed_by_state", "oneshot_pause_countdown_set",
 ];
 
 /// kanata's list of output keys of the last tick contains a key that no state of the layout
@@ -146,7 +171,26 @@ fn feats(sim: &Sim) -> u32 {
     if stale_os_key(sim) {
         f |= 1 << 12;
     }
+    if l.oneshot.ticks_to_ignore_events > 0 {
+        f |= FEAT_OS_PAUSE;
+    }
     f
+}
+
+/// the countdown of `one-shot-pause-processing` is set (state feature at a blocked point)
+const FEAT_OS_PAUSE: u32 = 1 << 13;
+
+/// Largest threshold written in any `(key-timing N lt|gt T)` of the configuration text (literal
+/// numbers only; None if there is no key-timing test or a threshold is not a literal).
+fn max_key_timing_written(cfg: &str) -> Option<u16> {
+    let mut max: Option<u16> = None;
+    for part in cfg.split("(key-timing").skip(1) {
+        let mut it = part.split_whitespace();
+        let (_n, _cmp, t) = (it.next()?, it.next()?, it.next()?);
+        let t: u16 = t.trim_end_matches(')').parse().ok()?;
+        max = Some(max.map_or(t, |m| m.max(t)));
+    }
+    max
 }
 
 /// Emulated repairs used only to *classify* a violation that was already found: L' is L with the
@@ -170,6 +214,11 @@ struct Fix {
     /// (handling a repeat recomputes the override state and thereby wipes the marker that keeps
     /// kanata awake after an override with override-release-on-activation)
     stale_rep: bool,
+    /// keep ticking while the countdown of `one-shot-pause-processing` is set
+    os_pause: bool,
+    /// keep ticking while the newest typed key is younger than this (the largest key-timing
+    /// threshold written in the configuration text; 0 = off)
+    key_timing: u16,
 }
 
 /// zippychord's forced state reset fires after this many consecutive ticks without a zippy state
@@ -261,6 +310,25 @@ struct RunRes {
     gap_ticks: u64,
     /// virtual wall time at which the run ended
     t_end: u64,
+    /// presses handled while a one-shot was active and `one-shot-pause-processing` was (not) counting
+    os_press_paused: u64,
+    os_press_unpaused: u64,
+    /// R only: gaps during whose ticks the `one-shot-pause-processing` countdown moved
+    os_pause_ran_in_gap: u64,
+}
+
+/// evidence: what state a press meets (the tick that handles it first counts the pause down by one)
+fn note_press(sim: &Sim, ev: &Ev, res: &mut RunRes) {
+    if let Ev::P(_) = ev {
+        let l = sim.k.layout.b();
+        if !l.oneshot.keys.is_empty() {
+            if l.oneshot.ticks_to_ignore_events > 1 {
+                res.os_press_paused += 1;
+            } else if l.oneshot.ticks_to_ignore_events == 0 {
+                res.os_press_unpaused += 1;
+            }
+        }
+    }
 }
 
 fn one_tick(sim: &mut Sim, t: u64) {
@@ -308,6 +376,12 @@ fn run_loop(sim: &mut Sim, arr: &[(u64, Ev)], final_gap: u64, spin_bound: u64, p
             if fix.recording && sim.k.dynamic_macro_record_state.is_some() {
                 own = false;
             }
+            if fix.os_pause && sim.k.layout.b().oneshot.ticks_to_ignore_events > 0 {
+                own = false;
+            }
+            if fix.key_timing > 0 && sim.k.layout.b().historical_keys.iter_hevents().next().map(|h| h.ticks_since_occurrence < fix.key_timing).unwrap_or(false) {
+                own = false;
+            }
             if fix.zippy && zx.tick_in.iter().any(|(a, b)| *a <= t && t <= *b) {
                 own = false;
             }
@@ -352,6 +426,7 @@ fn run_loop(sim: &mut Sim, arr: &[(u64, Ev)], final_gap: u64, spin_bound: u64, p
                     }
                     None => gap,
                 };
+                let pause_before = sim.k.layout.b().oneshot.ticks_to_ignore_events;
                 for _ in 0..allowed {
                     t += 1;
                     let n0 = sim.trace.len();
@@ -369,6 +444,9 @@ fn run_loop(sim: &mut Sim, arr: &[(u64, Ev)], final_gap: u64, spin_bound: u64, p
                 if turned_false {
                     res.unblocked_in_gap += 1;
                 }
+                if sim.k.layout.b().oneshot.ticks_to_ignore_events != pause_before {
+                    res.os_pause_ran_in_gap += 1;
+                }
                 // (capped run only) the rest of the gap is slept
                 t += gap - allowed;
             } else {
@@ -380,6 +458,7 @@ fn run_loop(sim: &mut Sim, arr: &[(u64, Ev)], final_gap: u64, spin_bound: u64, p
                     stale_used = false;
                     // wake: last_tick = now - 1 ms; handle the event; exactly one tick
                     sim.now = t;
+                    note_press(sim, ev, &mut res);
                     sim.apply(ev);
                     one_tick(sim, t);
                     rep_since_tick = false;
@@ -397,6 +476,7 @@ fn run_loop(sim: &mut Sim, arr: &[(u64, Ev)], final_gap: u64, spin_bound: u64, p
             let avail = matches!(arr.get(next), Some((te, _)) if *te <= t);
             if avail {
                 sim.now = t;
+                note_press(sim, &arr[next].1, &mut res);
                 sim.apply(&arr[next].1);
                 if matches!(arr[next].1, Ev::Rep(_)) {
                     rep_since_tick = true;
@@ -576,7 +656,10 @@ fn judge(cfg: &str, files: &FileMap, h: &[Ev], final_gap: u64, spin_bound: u64, 
     }
     let known = |j: &mut Judged, name: &str, how: &str| {
         let first = j.viol[0].clone();
-        j.viol = vec![(format!("known-cause:{name}"), format!("{} [{}] — {how} ({name})", first.1, first.0))];
+        // (the two `blocked-while:*` causes are not known defects of the unchanged tree: they name the
+        // time-driven state that was pending when kanata decided to block)
+        let sig = if name.starts_with("blocked-while:") { name.to_string() } else { format!("known-cause:{name}") };
+        j.viol = vec![(sig, format!("{} [{}] — {how} ({name})", first.1, first.0))];
     };
     let mut tries: Vec<(&str, Fix)> = vec![("input-pause-countdown-frozen", Fix { pause: true, ..Default::default() })];
     if cfg.contains("override-release-on-activation yes") && cfg.contains("(defoverrides") {
@@ -591,8 +674,17 @@ fn judge(cfg: &str, files: &FileMap, h: &[Ev], final_gap: u64, spin_bound: u64, 
     if zippy {
         tries.push(("zippy-forced-reset-skipped", Fix { zippy: true, ..Default::default() }));
     }
+    // (only if the countdown was seen moving during the ticks of a gap kanata had declared
+    // blockable: while it is frozen, refusing to block on it would keep the loop awake for ever and
+    // "explain" anything)
+    if j.r.os_pause_ran_in_gap > 0 {
+        tries.push(("blocked-while:oneshot-pause-countdown-set", Fix { os_pause: true, ..Default::default() }));
+    }
+    if let Some(m) = max_key_timing_written(cfg).filter(|m| *m > 0) {
+        tries.push(("blocked-while:typed-key-younger-than-a-key-timing-threshold", Fix { key_timing: m, ..Default::default() }));
+    }
     // (the zippychord experiment is not part of "several": it is only meaningful on its own)
-    tries.push(("several", Fix { pause: true, stale: true, zippy: false, oneshot0: true, recording: true, stale_rep: false }));
+    tries.push(("several", Fix { pause: true, stale: true, zippy: false, oneshot0: true, recording: true, stale_rep: false, os_pause: false, key_timing: 0 }));
     for (name, fix) in tries {
         if fix.zippy {
             if zippy_forced_reset_explains(cfg, files, h, final_gap, spin_bound, &j) {
@@ -677,12 +769,31 @@ struct Shaped {
     zippy: bool,
     /// zippy-reenable family: (idle-reactivate-time, on-first-press-chord-deadline) in effect
     zr: Option<(u64, u64)>,
+    /// oneshot-pause / key-timing-lt families: parameters of the scripted histories
+    script: Option<Script>,
 }
+
+/// Parameters of the two scripted families that walk a time-driven state which is alive while
+/// nothing else is pending.
+#[derive(Clone, Debug)]
+enum Script {
+    /// `one-shot-pause-processing n` reachable through key p (placement `place`) and through the
+    /// release of the layer key l; one-shot keys o (timeout t1) and q (timeout t2)
+    Op { n: u64, t1: u64, t2: u64, place: &'static str },
+    /// switch keys s and u with key-timing tests; `thr` = the threshold that decides key s (as
+    /// written), `shape` says which kind of threshold is the largest of the configuration
+    Kt { thr: u64, shape: &'static str, form: &'static str },
+}
+
+const OP_PLACES: &[&str] = &["own-key", "in-multi", "vkey-on-press", "vkey-on-release"];
+const OP_OPENINGS: &[&str] = &["pause-key-tap", "pause-key-tap", "layer-key-tap", "pause-then-typing", "one-shot-then-layer-release", "none"];
+const KT_SHAPES: &[&str] = &["lt-only", "lt-only", "lt-above-gt", "lt-above-gt", "gt-above-lt", "lt-equals-gt"];
+const KT_FORMS: &[&str] = &["plain", "plain", "less-than", "and", "or", "not", "older-key"];
 
 const FAMILIES: &[&str] = &[
     "tap-hold", "one-shot", "tap-dance", "chords-v1", "chords-v2", "macro", "sequence", "caps-word", "hold-for-duration",
     "on-idle", "mouse-repeat", "switch-key-timing", "zippychord", "dynamic-macro", "mixed", "pause-and-repress",
-    "zippy-reenable",
+    "zippy-reenable", "oneshot-pause", "key-timing-lt",
 ];
 
 fn shaped(rng: &mut Rng, fam: usize) -> Shaped {
@@ -824,6 +935,64 @@ fn shaped(rng: &mut Rng, fam: usize) -> Shaped {
                 _ => "dy\tday\ndya\tdaily\ndy 1\tMonday\n 1\tone\n",
             };
             s.files = vec![("zfile".into(), file.into())];
+        }
+        "oneshot-pause" => {
+            // one-shot-pause-processing started while no one-shot is active (own key, inside multi,
+            // through a virtual key on press / on release, through the release of a layer key as in
+            // the documented set-up), one-shot keys of every variant whose timeouts lie on both sides
+            // of the pause time
+            let n = *rng.pick(&[5u64, 20, 50, 200, 300, 1000]);
+            let t1 = *rng.pick(&[n / 2 + 1, 2 * n, 2 * n, 2000, 2000]);
+            let t2 = *rng.pick(&[n + 1, 3 * n, 2000]);
+            let v1 = *rng.pick(&["one-shot", "one-shot-press", "one-shot-release", "one-shot-press-pcancel", "one-shot-release-pcancel"]);
+            let v2 = *rng.pick(&["one-shot", "one-shot-press", "one-shot-release"]);
+            let place = *rng.pick(OP_PLACES);
+            let pause = match place {
+                "own-key" => format!("(one-shot-pause-processing {n})"),
+                "in-multi" => format!("(multi z (one-shot-pause-processing {n}))"),
+                "vkey-on-press" => "(on-press tap-vkey vp)".to_string(),
+                _ => "(on-release tap-vkey vp)".to_string(),
+            };
+            s.script = Some(Script::Op { n, t1, t2, place });
+            s.numbers = vec![n, t1, t2, red];
+            s.keys = ks(&["p", "o", "q", "c", "d", "l"]);
+            s.text = format!(
+                "{}(defsrc p o q c d l)\n(defvirtualkeys vp (one-shot-pause-processing {n}))\n(deflayer l0 {pause} ({v1} {t1} lsft) ({v2} {t2} (layer-while-held l2)) c d (multi (layer-while-held l1) (on-release tap-vkey vp)))\n(deflayer l1 1 ({v1} {t1} lctl) 3 4 5 _)\n(deflayer l2 6 7 8 9 0 _)\n",
+                defcfg("")
+            );
+        }
+        "key-timing-lt" => {
+            // switch key-timing where the LARGEST threshold of the configuration is (or is not) a
+            // less-than test - the typing-streak idiom: no greater-than at all, a smaller one, a
+            // larger one (control), the same
+            let thr = *rng.pick(&[t.max(3), 50, 200, 255, 256, 300, 1000, 2303, 2304, 5000]);
+            let shape = *rng.pick(KT_SHAPES);
+            let form = *rng.pick(KT_FORMS);
+            let lt = *rng.pick(&["lt", "less-than"]);
+            let small = *rng.pick(&[1u64, 2, thr / 2]).max(&1);
+            let cond = match form {
+                "plain" => format!("((key-timing 1 lt {thr}))"),
+                "less-than" => format!("((key-timing 1 less-than {thr}))"),
+                "and" => format!("((and (key-timing 1 {lt} {thr}) (key-timing 2 {lt} {})))", thr + *rng.pick(&[0u64, 1, 100])),
+                "or" => format!("((or (key-timing 1 {lt} {small}) (key-timing 1 {lt} {thr})))"),
+                "not" => format!("((not (key-timing 1 {lt} {thr})))"),
+                _ => format!("((key-timing 2 {lt} {thr}))"),
+            };
+            let second = match shape {
+                "lt-only" => format!("(switch ((key-timing 1 {lt} {small})) z fallthrough ((key-timing 3 {lt} {thr})) w break () v break)"),
+                "lt-above-gt" => format!("(switch ((key-timing 1 gt {small})) z break () w break)"),
+                "gt-above-lt" => format!("(switch ((key-timing 1 gt {})) z break () w break)", thr + *rng.pick(&[1u64, 50, 1000])),
+                _ => format!("(switch ((key-timing 1 gt {thr})) z break () w break)"),
+            };
+            let wrap = rng.coin();
+            s.script = Some(Script::Kt { thr, shape, form });
+            s.numbers = vec![thr, small, red];
+            s.keys = ks(&["a", "b", "s", "u"]);
+            s.text = if wrap {
+                format!("{}(defsrc a b s u)\n(defalias sw (switch {cond} x break () y break))\n(deflayer l0 a b @sw {second})\n", defcfg(""))
+            } else {
+                format!("{}(defsrc a b s u)\n(deflayer l0 a b (switch {cond} x break () y break) {second})\n", defcfg(""))
+            };
         }
         "dynamic-macro" => {
             let beh = *rng.pick(&["constant", "recorded"]);
@@ -1092,7 +1261,142 @@ fn zr_hist(rng: &mut Rng, react: u64, deadline: u64) -> (Vec<Ev>, Vec<ZrMark>) {
     (h, marks)
 }
 
+/// One round of a scripted history of the oneshot-pause / key-timing-lt families.
+#[derive(Clone, Debug)]
+struct ScMark {
+    opening: &'static str,
+    /// nominal idle gap between the opening and the probe
+    gap: u64,
+    /// the number the gap is to be compared with (pause time / key-timing threshold)
+    against: u64,
+    gap_from: usize,
+    probe_from: usize,
+    probe_to: usize,
+}
+
+/// oneshot-pause: 1..=3 rounds of [opening that starts the pause with or without a one-shot active |
+/// nothing], idle gap around the pause time, one-shot key, then two taps of a plain key at
+/// distances around the pause time, settle.
+fn op_hist(rng: &mut Rng, n: u64, t1: u64, t2: u64) -> (Vec<Ev>, Vec<ScMark>) {
+    let k = |n: &str| osc(n);
+    let mut h: Vec<Ev> = vec![];
+    let mut marks = vec![];
+    let t = |h: &mut Vec<Ev>, n: u64| {
+        if n > 0 {
+            h.push(Ev::T(n as u32));
+        }
+    };
+    let tap = |h: &mut Vec<Ev>, n: &str, hold: u64| {
+        h.push(Ev::P(k(n)));
+        if hold > 0 {
+            h.push(Ev::T(hold as u32));
+        }
+        h.push(Ev::R(k(n)));
+    };
+    let rounds = 1 + rng.usize(3);
+    for _ in 0..rounds {
+        let opening = *rng.pick(OP_OPENINGS);
+        match opening {
+            "pause-key-tap" => tap(&mut h, "p", *rng.pick(&[0u64, 1, 5, 30])),
+            "layer-key-tap" => tap(&mut h, "l", *rng.pick(&[1u64, 5, 30])),
+            "pause-then-typing" => {
+                tap(&mut h, "p", *rng.pick(&[1u64, 5]));
+                t(&mut h, *rng.pick(&[1u64, 5, 20]));
+                tap(&mut h, *rng.pick(&["c", "d"]), *rng.pick(&[1u64, 5]));
+            }
+            "one-shot-then-layer-release" => {
+                // the documented use: the pause starts while the one-shot is active
+                h.push(Ev::P(k("l")));
+                t(&mut h, *rng.pick(&[1u64, 5, 20]));
+                tap(&mut h, "o", *rng.pick(&[1u64, 5]));
+                t(&mut h, *rng.pick(&[1u64, 5]));
+                h.push(Ev::R(k("l")));
+            }
+            _ => {}
+        }
+        let mut pool: Vec<u64> = vec![0, 1, 7, n / 2, n.saturating_sub(1), n, n + 1, 2 * n, 2 * n + 40, 1000, 1000, 3000];
+        if rng.chance(1, 12) {
+            pool = vec![10_001, 70_000];
+        }
+        let gap = *rng.pick(&pool);
+        let gap_from = h.len();
+        t(&mut h, gap);
+        let probe_from = h.len();
+        let (os, tos) = if rng.chance(3, 4) { ("o", t1) } else { ("q", t2) };
+        tap(&mut h, os, *rng.pick(&[1u64, 3, 10]));
+        t(&mut h, *rng.pick(&[1u64, 5, 20]));
+        let plain = *rng.pick(&["c", "c", "d"]);
+        tap(&mut h, plain, *rng.pick(&[1u64, 5]));
+        t(&mut h, *rng.pick(&[2u64, 5, n / 2, n.saturating_sub(1).max(1), n, n + 1]));
+        tap(&mut h, plain, *rng.pick(&[1u64, 5]));
+        let probe_to = h.len();
+        marks.push(ScMark { opening, gap, against: n, gap_from, probe_from, probe_to });
+        t(&mut h, *rng.pick(&[1u64, 30, tos + 5, tos + n + 5, 1500]));
+    }
+    (h, marks)
+}
+
+/// key-timing-lt: 1..=3 rounds of [1..3 plain keys typed], everything released, idle gap around
+/// the threshold (as written and as stored after compression), a switch key tapped, sometimes
+/// tapped again at once (a young key), pause.
+fn kt_hist(rng: &mut Rng, thr: u64) -> (Vec<Ev>, Vec<ScMark>) {
+    let k = |n: &str| osc(n);
+    let mut h: Vec<Ev> = vec![];
+    let mut marks = vec![];
+    let t = |h: &mut Vec<Ev>, n: u64| {
+        if n > 0 {
+            h.push(Ev::T(n as u32));
+        }
+    };
+    let tap = |h: &mut Vec<Ev>, n: &str, hold: u64| {
+        h.push(Ev::P(k(n)));
+        if hold > 0 {
+            h.push(Ev::T(hold as u32));
+        }
+        h.push(Ev::R(k(n)));
+    };
+    // the threshold the opcode really stores (8 ms / 128 ms resolution, rounded down)
+    let stored = match thr {
+        0..=255 => thr,
+        256..=2303 => (thr - 255) / 8 * 8 + 255,
+        _ => (thr - 2303) / 128 * 128 + 2303,
+    };
+    let rounds = 1 + rng.usize(3);
+    for _ in 0..rounds {
+        let ntyped = 1 + rng.usize(3);
+        let opening = ["typed-1", "typed-2", "typed-3"][ntyped - 1];
+        for i in 0..ntyped {
+            tap(&mut h, *rng.pick(&["a", "b"]), *rng.pick(&[1u64, 5, 20]));
+            if i + 1 < ntyped {
+                t(&mut h, *rng.pick(&[0u64, 3, 30]));
+            }
+        }
+        let mut pool: Vec<u64> = vec![0, 1, 5, thr / 2, 2 * thr, 2 * thr + 50, 3 * thr + 7, thr + 1000, 3000];
+        for c in [thr, stored] {
+            pool.extend_from_slice(&[c.saturating_sub(2), c.saturating_sub(1), c, c + 1, c + 2]);
+        }
+        if rng.chance(1, 12) {
+            pool = vec![10_001, 70_000];
+        }
+        let gap = *rng.pick(&pool);
+        let gap_from = h.len();
+        t(&mut h, gap);
+        let probe_from = h.len();
+        let sw = *rng.pick(&["s", "s", "u"]);
+        tap(&mut h, sw, *rng.pick(&[1u64, 4]));
+        if rng.chance(1, 3) {
+            t(&mut h, *rng.pick(&[1u64, 3, 10]));
+            tap(&mut h, *rng.pick(&["s", "u"]), 2);
+        }
+        let probe_to = h.len();
+        marks.push(ScMark { opening, gap, against: thr, gap_from, probe_from, probe_to });
+        t(&mut h, *rng.pick(&[0u64, 10, thr + 5, 1500]));
+    }
+    (h, marks)
+}
+
 struct Case {
+    sc_marks: Vec<Vec<ScMark>>,
     zr_marks: Vec<Vec<ZrMark>>,
     kind: &'static str,
     s: Shaped,
@@ -1105,7 +1409,8 @@ fn n_real(ctx: &Ctx) -> u64 {
     ctx.tier.sel(40, 300)
 }
 fn n_shaped(ctx: &Ctx) -> u64 {
-    ctx.tier.sel(1020, 25_500)
+    // 60 / 1500 configurations per family
+    ctx.tier.sel(1140, 28_500)
 }
 fn n_random(ctx: &Ctx) -> u64 {
     ctx.tier.sel(800, 20_000)
@@ -1131,7 +1436,7 @@ fn make_case(ctx: &Ctx, idx: u64) -> Case {
         let ku: Vec<&'static str> = g.kinds_used.iter().copied().collect();
         (
             "random",
-            Shaped { feature: "random-grammar", text: g.text, files: g.files, keys: g.keys, numbers: g.numbers, red: g.rapid_event_delay, zippy: false, zr: None },
+            Shaped { feature: "random-grammar", text: g.text, files: g.files, keys: g.keys, numbers: g.numbers, red: g.rapid_event_delay, zippy: false, zr: None, script: None },
             ku,
         )
     };
@@ -1140,7 +1445,25 @@ fn make_case(ctx: &Ctx, idx: u64) -> Case {
     let mut hists = vec![];
     let mut final_gaps = vec![];
     let mut zr_marks = vec![];
+    let mut sc_marks = vec![];
     for i in 0..nh {
+        if let Some(sc) = &s.script {
+            // scripted rounds; every other history continues with a short random tail
+            let (mut h, marks) = match sc {
+                Script::Op { n, t1, t2, .. } => op_hist(&mut rng, *n, *t1, *t2),
+                Script::Kt { thr, .. } => kt_hist(&mut rng, *thr),
+            };
+            if i % 2 == 1 {
+                let n = 2 + rng.usize(10);
+                h.extend(gen_hist(&mut rng, &keys, n, &small, &big, 1, i % 4 == 1));
+            }
+            hists.push(h);
+            sc_marks.push(marks);
+            zr_marks.push(vec![]);
+            final_gaps.push(*rng.pick(&[1u64, 50, 300, 1000, 1000, 1000, 10_001, 70_000]));
+            continue;
+        }
+        sc_marks.push(vec![]);
         if let Some((react, deadline)) = s.zr {
             // scripted rounds; every other history continues with a short random tail
             let (mut h, marks) = zr_hist(&mut rng, react, deadline);
@@ -1196,7 +1519,7 @@ fn make_case(ctx: &Ctx, idx: u64) -> Case {
         hists.push(h);
         final_gaps.push(*rng.pick(&[1u64, 50, 300, 1000, 1000, 1000, 10_001, 70_000]));
     }
-    Case { zr_marks, kind, s, kinds_used, hists, final_gaps }
+    Case { sc_marks, zr_marks, kind, s, kinds_used, hists, final_gaps }
 }
 
 fn spin_bound(s: &Shaped) -> u64 {
@@ -1362,6 +1685,76 @@ fn run_emu_case(ctx: &Ctx, idx: u64, out: &mut CaseOut) {
                     }
                 } else if expanded {
                     out.inc("zr_chord_expanded_without_disturbance");
+                }
+            }
+        }
+        out.count("gaps_where_oneshot_pause_countdown_moved_while_ticking", j.r.os_pause_ran_in_gap);
+        out.count("presses_while_one_shot_active_and_pause_counting", j.l.os_press_paused);
+        out.count("presses_while_one_shot_active_and_no_pause", j.l.os_press_unpaused);
+        if let (Some(sc), Some(marks)) = (&c.s.script, c.sc_marks.get(hi)) {
+            use crate::core::sim::OutKind;
+            let mut at = Vec::with_capacity(h.len() + 1);
+            let mut tt = T0;
+            for e in h.iter() {
+                at.push(tt);
+                if let Ev::T(n) = e {
+                    tt += *n as u64;
+                }
+            }
+            at.push(tt);
+            for m in marks {
+                let (g0, p0, p1) = (at[m.gap_from], at[m.probe_from], at[m.probe_to] + 3);
+                let gap_blocks: Vec<&Block> = j.l.blocks.iter().filter(|b| b.gap > 0 && b.t >= g0 && b.t < p0).collect();
+                let slept: u64 = gap_blocks.iter().map(|b| b.gap).sum();
+                let down_in_probe = |name: &str| j.ltrace.iter().any(|o| o.kind == OutKind::Down && o.name == name && o.at >= p0 && o.at <= p1);
+                match sc {
+                    Script::Op { place, .. } => {
+                        out.inc("op_probes");
+                        out.inc(&format!("op_opening:{}", m.opening));
+                        out.inc(&format!("op_pause_placed:{place}"));
+                        out.inc(if m.gap < m.against { "op_gap_lt_pause_time" } else { "op_gap_ge_pause_time" });
+                        if gap_blocks.iter().any(|b| b.feats & FEAT_OS_PAUSE != 0) {
+                            out.inc("op_gap_slept_with_pause_countdown_set");
+                            if gap_blocks.iter().any(|b| b.feats & FEAT_OS_PAUSE != 0 && b.gap >= m.against) {
+                                out.inc("op_gap_slept_longer_than_pause_time_with_countdown_set");
+                            }
+                        } else if slept > 0 {
+                            out.inc("op_gap_slept_without_pause_countdown");
+                        }
+                    }
+                    Script::Kt { shape, form, .. } => {
+                        out.inc("kt_probes");
+                        out.inc(&format!("kt_shape:{shape}"));
+                        out.inc(&format!("kt_form:{form}"));
+                        out.inc(&format!("kt_opening:{}", m.opening));
+                        let lt_largest = matches!(*shape, "lt-only" | "lt-above-gt");
+                        if lt_largest {
+                            out.inc("kt_probes_largest_threshold_is_lt");
+                        }
+                        if m.gap > m.against {
+                            out.inc("kt_gap_gt_threshold");
+                            if lt_largest {
+                                out.inc("kt_gap_gt_threshold_largest_is_lt");
+                                if slept > 0 {
+                                    out.inc("kt_gap_gt_threshold_largest_is_lt_partly_slept");
+                                }
+                            }
+                        } else {
+                            out.inc("kt_gap_le_threshold");
+                        }
+                        if down_in_probe("X") {
+                            out.inc("kt_first_case_taken");
+                            if lt_largest {
+                                out.inc("kt_first_case_taken_largest_is_lt");
+                            }
+                        }
+                        if down_in_probe("Y") {
+                            out.inc("kt_default_case_taken");
+                            if lt_largest {
+                                out.inc("kt_default_case_taken_largest_is_lt");
+                            }
+                        }
+                    }
                 }
             }
         }
@@ -1700,7 +2093,7 @@ impl Check for C07Check {
         out
     }
     fn rule(&self) -> String {
-        "three kinds of case. (1) emulator cases: one configuration (17 hand-shaped families, one per time-dependent feature: tap-hold variants, one-shot variants, tap-dance lazy/eager, chords v1, chords v2 with chords-v2-min-idle, macro variants, sequences (sldr, sequence, defseq, three input modes), caps-word variants, hold-for-duration, on-idle, mwheel/movemouse/movemouse-accel, switch key-timing at the compression edges, zippychord with deadlines, dynamic-macro record/replay, a mixed one, one-shot-pause-processing/rapid-event-delay, zippy-reenable (zippychord with idle-reactivate-time R from {default 500,5,20,50,200,700,3000} x on-first-press-chord-deadline from {default 500,20,50,200,2000} x smart-space none/add-space-only/full x 3 chord files; histories are 1..3 scripted rounds of: opening from {non-chord tap, chord-subset key tap, rolled non-chord keys, chord key held to the deadline +-1, chord activation, ignored-key tap, nothing}, idle gap from {0,1,R/2,R-2..R+3,2R,3R+7,1000,3000,6000,9000,9990} (one in ten from {10001,12000,70000}), a quarter of the gaps interrupted by a tap of lsft which zippychord ignores, then a two-key chord attempt in either order (second key 0..10 ms after the first, one in four at deadline-2..deadline+10), one in six under shift, optional follow-up key; every other history continues with random input); then the whole non-latching action grammar at random) x 5 (quick) / 10 (thorough) physically consistent histories (random overlapping, 'calm' one-key-at-a-time, scripted openings that put the feature into its pending state; OS repeats in a quarter) with gaps drawn from {0,1,2,3,7, T-1,T,T+1 for every number T in the configuration, 1000, 10001, 70000}. Each history is executed twice on the real code in a virtual-time reproduction of the processing loop: L sleeps whenever can_block_update_idle_waiting says so, R replays L's iterations but ticks through every slept gap; plus a final gap after the last event. A difference on a zippychord configuration is attributed to the known forced-reset defect only if (i) the ticking run capped so that no stretch between two certain zippy state changes (releases of non-ignored keys) executes 10000 ticks agrees with L and (ii) L kept from blocking only inside the stretches longer than 10000 ms agrees with its ticking twin; otherwise it is reported under its structural signature. (2) real-loop cases: a time-insensitive configuration (plain keys, output chords, multi, layers, release-key/-layer, unicode, mouse buttons, overrides) is written to a scratch file, Kanata::new_arc + the real start_processing_loop thread are fed <= 24 events through the real channel with real sleeps from {0..25 ms}; the ordered OS stream is compared with the stepper's. (3) timed real-loop cases (8 quick / 64 thorough, the last indices; family = index mod 8 so that every family is in every run): one time-dependent feature (tap-hold / -press / -release / -release-timeout / -press-timeout; one-shot / -press / -release / -press-pcancel / -release-pcancel; tap-dance + tap-dance-eager; defchords; defchordsv2; sldr + defseq with sequence-timeout in the three input modes; caps-word / -toggle; macro with a delay / macro-cancel-on-press / hold-for-duration / mwheel) with timeout T from {1200,1500,2000} ms on a real start_processing_loop thread, 2 (quick) / 3 (thorough) rounds of: [in a quarter of the rounds a plain key is pressed and stays down], real idle sleep of T+500..T+1000 ms during which kanata must be idle (the thread blocks on the channel), a probe from the family's list (4..7 per family: events 20..60 ms apart; 'fast' probes start the timed action with the first event after the gap and finish well inside T - the tap, the one-shot followed by a key, the double tap, the chord, the sequence, the word under caps-word, a key inside the macro delay; control probes contain one deliberate wait of T+600 ms - the hold, the expired one-shot, two separate taps, the too-slow chord), settle (101 WakeUp events flush the channel, then poll until kanata is idle). Round 1 always uses a fast probe. Up to 8 candidate scenarios are drawn per case until one is robust (the stepper's stream is unchanged when any single wait is 200 ms longer when all short waits are 1 ms / the over wait 200 ms shorter, and when any one / all short waits are 0 ms, i.e. events handled back to back as after a stall of the processing thread) and sensitive (the stepper's stream changes when the ticks of each idle wait are executed after the event that ends it). Oracle: ordered OS stream of the real thread == the stepper's on the same history with each wait as that many ticks; a difference is re-run once on a fresh thread and reported only if both runs are conclusive and differ in the same way (signature real-loop-after-idle:idle-gap-ticks-run-after-the-wake-event if the stream equals the stepper's with the idle ticks moved behind the wake event, else real-loop-after-idle:timed-outcome-differs). Non-trivial = history with at least one blocked point; distinct = (action kinds or family, state features present at the blocked points, gap-length buckets); for timed cases (family, variant, probe, plain key held).".into()
+        "three kinds of case. (1) emulator cases: one configuration (19 hand-shaped families, one per time-dependent feature: tap-hold variants, one-shot variants, tap-dance lazy/eager, chords v1, chords v2 with chords-v2-min-idle, macro variants, sequences (sldr, sequence, defseq, three input modes), caps-word variants, hold-for-duration, on-idle, mwheel/movemouse/movemouse-accel, switch key-timing at the compression edges, zippychord with deadlines, dynamic-macro record/replay, a mixed one, one-shot-pause-processing/rapid-event-delay, zippy-reenable (zippychord with idle-reactivate-time R from {default 500,5,20,50,200,700,3000} x on-first-press-chord-deadline from {default 500,20,50,200,2000} x smart-space none/add-space-only/full x 3 chord files; histories are 1..3 scripted rounds of: opening from {non-chord tap, chord-subset key tap, rolled non-chord keys, chord key held to the deadline +-1, chord activation, ignored-key tap, nothing}, idle gap from {0,1,R/2,R-2..R+3,2R,3R+7,1000,3000,6000,9000,9990} (one in ten from {10001,12000,70000}), a quarter of the gaps interrupted by a tap of lsft which zippychord ignores, then a two-key chord attempt in either order (second key 0..10 ms after the first, one in four at deadline-2..deadline+10), one in six under shift, optional follow-up key; every other history continues with random input), oneshot-pause (one-shot-pause-processing N, N from {5,20,50,200,300,1000}, on its own key / in multi / through a virtual key on press / on release / through the on-release of a layer-while-held key, with one-shot keys of the five variants, timeouts {N/2+1,2N,2000} and {N+1,3N,2000}; histories are 1..3 scripted rounds of: opening from {pause key tap, layer key tap, pause key then a plain key, layer held + one-shot tapped + layer released, nothing}, idle gap from {0,1,7,N/2,N-1,N,N+1,2N,2N+40,1000,3000} (one in twelve from {10001,70000}), one-shot key tap, plain key tap 1..20 ms later and again {2,5,N/2,N-1,N,N+1} ms later, pause; every other history continues with random input), key-timing-lt (switch key-timing whose largest written threshold is a less-than test: no greater-than at all / a smaller one; controls: a larger greater-than / the same threshold; threshold T from {3..200,50,200,255,256,300,1000,2303,2304,5000}; test plain / spelled less-than / in and / or / not / on the 2nd most recent key; in the layer or behind an alias; second switch key with a fallthrough case; histories are 1..3 scripted rounds of: 1..3 plain keys typed, idle gap from {0,1,5,T/2,T-2..T+2 for T as written and as stored,2T,2T+50,3T+7,T+1000,3000} (one in twelve from {10001,70000}), a switch key tapped, a third of the time tapped again at once, pause; every other history continues with random input); then the whole non-latching action grammar at random) x 5 (quick) / 10 (thorough) physically consistent histories (random overlapping, 'calm' one-key-at-a-time, scripted openings that put the feature into its pending state; OS repeats in a quarter) with gaps drawn from {0,1,2,3,7, T-1,T,T+1 for every number T in the configuration, 1000, 10001, 70000}. Each history is executed twice on the real code in a virtual-time reproduction of the processing loop: L sleeps whenever can_block_update_idle_waiting says so, R replays L's iterations but ticks through every slept gap; plus a final gap after the last event. A difference on a zippychord configuration is attributed to the known forced-reset defect only if (i) the ticking run capped so that no stretch between two certain zippy state changes (releases of non-ignored keys) executes 10000 ticks agrees with L and (ii) L kept from blocking only inside the stretches longer than 10000 ms agrees with its ticking twin; otherwise it is reported under its structural signature. A difference of any configuration that disappears when the sleeping run is kept from blocking while the one-shot-pause-processing countdown is set (tried only if that countdown moved during the ticks of a gap kanata had declared blockable) / while the newest typed key is younger than the largest key-timing threshold written in the configuration is reported as blocked-while:oneshot-pause-countdown-set / blocked-while:typed-key-younger-than-a-key-timing-threshold (live signatures, not known findings). (2) real-loop cases: a time-insensitive configuration (plain keys, output chords, multi, layers, release-key/-layer, unicode, mouse buttons, overrides) is written to a scratch file, Kanata::new_arc + the real start_processing_loop thread are fed <= 24 events through the real channel with real sleeps from {0..25 ms}; the ordered OS stream is compared with the stepper's. (3) timed real-loop cases (8 quick / 64 thorough, the last indices; family = index mod 8 so that every family is in every run): one time-dependent feature (tap-hold / -press / -release / -release-timeout / -press-timeout; one-shot / -press / -release / -press-pcancel / -release-pcancel; tap-dance + tap-dance-eager; defchords; defchordsv2; sldr + defseq with sequence-timeout in the three input modes; caps-word / -toggle; macro with a delay / macro-cancel-on-press / hold-for-duration / mwheel) with timeout T from {1200,1500,2000} ms on a real start_processing_loop thread, 2 (quick) / 3 (thorough) rounds of: [in a quarter of the rounds a plain key is pressed and stays down], real idle sleep of T+500..T+1000 ms during which kanata must be idle (the thread blocks on the channel), a probe from the family's list (4..7 per family: events 20..60 ms apart; 'fast' probes start the timed action with the first event after the gap and finish well inside T - the tap, the one-shot followed by a key, the double tap, the chord, the sequence, the word under caps-word, a key inside the macro delay; control probes contain one deliberate wait of T+600 ms - the hold, the expired one-shot, two separate taps, the too-slow chord), settle (101 WakeUp events flush the channel, then poll until kanata is idle). Round 1 always uses a fast probe. Up to 8 candidate scenarios are drawn per case until one is robust (the stepper's stream is unchanged when any single wait is 200 ms longer when all short waits are 1 ms / the over wait 200 ms shorter, and when any one / all short waits are 0 ms, i.e. events handled back to back as after a stall of the processing thread) and sensitive (the stepper's stream changes when the ticks of each idle wait are executed after the event that ends it). Oracle: ordered OS stream of the real thread == the stepper's on the same history with each wait as that many ticks; a difference is re-run once on a fresh thread and reported only if both runs are conclusive and differ in the same way (signature real-loop-after-idle:idle-gap-ticks-run-after-the-wake-event if the stream equals the stepper's with the idle ticks moved behind the wake event, else real-loop-after-idle:timed-outcome-differs). Non-trivial = history with at least one blocked point; distinct = (action kinds or family, state features present at the blocked points, gap-length buckets); for timed cases (family, variant, probe, plain key held).".into()
     }
     fn assumptions(&self) -> Vec<String> {
         vec![
@@ -1712,6 +2105,8 @@ impl Check for C07Check {
             "timed real-loop cases cover the wake-up path of the blocking branch only where a time-dependent action is started by, or shortly after, the event that ends the blocked gap; zippychord, dynamic macros, on-idle and switch key-timing are not among the timed families (their outcome on the ordered stream does not depend on where the idle ticks go, or they keep the loop from blocking)".into(),
             "zippychord's state is not visible from outside: the zippy-reenable counters (chord expanded / typed plain after a disturbance, gap slept) are read off the output of run L (a backspace during the chord attempt = expansion) and are evidence that both sides of the reactivation time were reached, not an oracle; whether a chord must expand is C20's question".into(),
             "a 'certain zippy state change' is the release of a key zippychord does not ignore reaching the OS (zch_release_key always resets the counter; a press does so only while zippy is enabled, which cannot be seen); stretches are therefore over-estimated, which can only make the capped run tick less, never let the forced reset fire in it".into(),
+            "oneshot-pause and key-timing-lt are judged by the slept-vs-ticked relation only: whether a paused one-shot must ignore a key, or which switch case must be taken after a pause, is C06's / C10's question. Their counters (pause countdown set at a slept gap, presses met by an active one-shot with / without the pause counting, first / default switch case taken in run L, gap longer than the threshold partly slept) are read off kanata's public state and run L's output and only show that both sides were reached".into(),
+            "the two blocked-while classifications are experiments on the real code (the sleeping run repeated with the loop refusing to block while that state is pending, against its own ticking twin); the largest key-timing threshold is read from the configuration text (literal numbers only), so configurations that write thresholds through variables keep the structural signature".into(),
             "latching virtual-key uses, cmd, clipboard and live-reload actions are not generated; a crash of the code under test ends the case and is C02's to report".into(),
         ]
     }
@@ -1757,6 +2152,40 @@ impl Check for C07Check {
             ("zr_opening:chord-activation", 20),
         ];
         v.push(("blocked_in:random-grammar", 200));
+        // oneshot-pause: the pause countdown was set at slept gaps (also gaps longer than the pause),
+        // and an active one-shot met presses with and without the pause counting
+        for f in [
+            ("blocked_in:oneshot-pause", 20),
+            ("op_probes", 300),
+            ("block_with:oneshot_pause_countdown_set", 500),
+            ("op_gap_slept_with_pause_countdown_set", 100),
+            ("op_gap_slept_longer_than_pause_time_with_countdown_set", 60),
+            ("op_gap_lt_pause_time", 60),
+            ("presses_while_one_shot_active_and_pause_counting", 150),
+            ("presses_while_one_shot_active_and_no_pause", 500),
+            ("op_opening:pause-key-tap", 30),
+            ("op_opening:layer-key-tap", 30),
+            ("op_opening:pause-then-typing", 30),
+            ("op_opening:one-shot-then-layer-release", 30),
+            ("op_pause_placed:own-key", 30),
+            ("op_pause_placed:in-multi", 30),
+            ("op_pause_placed:vkey-on-press", 30),
+            ("op_pause_placed:vkey-on-release", 30),
+            // key-timing-lt: configurations whose largest threshold is a less-than test were probed
+            // after idle gaps longer than it, part of which kanata slept, and both outcomes occurred
+            ("blocked_in:key-timing-lt", 20),
+            ("kt_probes", 300),
+            ("kt_probes_largest_threshold_is_lt", 100),
+            ("kt_shape:lt-only", 30),
+            ("kt_shape:lt-above-gt", 30),
+            ("kt_gap_gt_threshold_largest_is_lt", 50),
+            ("kt_gap_gt_threshold_largest_is_lt_partly_slept", 40),
+            ("kt_gap_le_threshold", 80),
+            ("kt_first_case_taken_largest_is_lt", 30),
+            ("kt_default_case_taken_largest_is_lt", 50),
+        ] {
+            v.push(f);
+        }
         // part 3: time-sensitive scenarios on the real thread that were conclusive (measured gaps
         // within the tolerance) and whose outcome depends on where the ticks of the idle gap go
         v.push(("timed_cases_judged", ctx.tier.sel(5, 40)));
